@@ -164,3 +164,19 @@ _hist("C13", [
   "rapid stateful histories with configuration updates at generated request boundaries; (a) identical: observables (runtime view, cache view, zones) before/after re-delivering the configuration in effect; (b) rejected: sequential twin executions with and without the rejected update (differential, guarded by a determinism self-check); (c) accepted: all invariant libraries of C01-C05/C09 evaluated on the step of the update under the new configuration",
   "non-trivial = (a)/(c) the update arrived with >= 2 live containers (one holding exclusive CPUs or sitting in a user balloon for (a)); (b) the injected update (one of 6-8 rejection kinds per policy) was rejected",
   ["twin executions run one after the other in the same process (topology-aware keeps options in package-level variables)"])
+
+PROPS["C10"] = {
+    "level": "fault_enumeration",
+    "technique": "rapid-generated cache contents with a save/reload round trip over every public getter; fault injection into Save with strace (SIGKILL or errno at the k-th openat/write/close/renameat/newfstatat touching the cache files, RLIMIT_FSIZE short writes) checked against previous/new snapshot; generated file types and modes for the refusal rule",
+    "rule": "round trip: 0-4 pods x 0-6 containers with optional sub-messages present/absent, labels, annotations incl. affinities, mounts, devices, hugepage limits, unified, followed by Set*/tag/state/resource-update mutations and policy entries of 9 types; non-trivial = >=1 container and >=1 mutation or policy entry. "
+            "crash: a helper process loads the directory, applies a change and saves under an injected fault (syscall x action x k, or a file size limit b); non-trivial = the helper did not finish cleanly (the fault hit) and the old and new snapshots differ. "
+            "refusal: state dir / cache file / containers dir of kind absent|file|dir|symlink|fifo with 16 modes; non-trivial = the state dir exists. distinct = hash of the case",
+    "assumptions": ["crash points are system-call boundaries of the calls touching <state>/cache and <state>/cache.saving (strace -P), plus byte offsets through RLIMIT_FSIZE; between system calls the on-disk state does not change",
+                    "durability across power loss (fsync) is outside the statement", "ctime and pending marks are not persisted and not compared"],
+    "units": [
+        {"name": "roundtrip", "pkg": "./pkg/resmgr/cache", "run": "^TestVerifC10RoundTrip$", "replay_run": "^TestVerifC10Replay$", "q": 400, "t": 80000},
+        {"name": "crash", "pkg": "./pkg/resmgr/cache", "run": "^TestVerifC10Crash$", "replay_run": "^TestVerifC10Replay$", "q": 120, "t": 24000},
+        {"name": "refusal", "pkg": "./pkg/resmgr/cache", "run": "^TestVerifC10Refusal$", "replay_run": "^TestVerifC10Replay$", "q": 300, "t": 48000},
+    ],
+    "floor_q": 20, "floor_t": 1000,
+}
